@@ -714,10 +714,12 @@ fn ts_add_days_consts_bounded() {
     assert!(ts.add_days(f64::NEG_INFINITY) == Err(Error::NumericOverflow));
     assert!(ts.add_days(1e300) == Err(Error::NumericOverflow));   // the product overflows to infinity
     assert!(ts.add_days(1e200) == Err(Error::DateOutOfRange));
-    let offs: [(f64, i64); 7] = [(0.0, 0), (1.0, K_US_DAY), (-1.0, -K_US_DAY), (0.5, K_US_DAY / 2), (-0.25, -K_US_DAY / 4),
-                                 (0.00000095367431640625, 82_397), (-0.00000095367431640625, -82_397)];
+    // 500000001 / 2^13 day = 5_273_437_510_546_875 us exactly: an odd integer between 2^52 and 2^53 (no tie, no slack)
+    let offs: [(f64, i64); 9] = [(0.0, 0), (1.0, K_US_DAY), (-1.0, -K_US_DAY), (0.5, K_US_DAY / 2), (-0.25, -K_US_DAY / 4),
+                                 (0.00000095367431640625, 82_397), (-0.00000095367431640625, -82_397),
+                                 (61035.1563720703125, 5_273_437_510_546_875), (-61035.1563720703125, -5_273_437_510_546_875)];
     let mut i = 0;
-    while i < 7 {
+    while i < 9 {
         let (d, us) = offs[i];
         let r = ts.add_days(d);
         let e = base + us;
@@ -779,34 +781,58 @@ fn clock_now_date() {
     assert!(unsafe { K_NOW_CALLS } == 1);
 }
 
+pub static mut K_NEW_DAY: i64 = 0;
+pub static mut K_NEW_TOD: i64 = -1;
+pub static mut K_NEW_CALLS: u32 = 0;
+/// `Timestamp::new` / `oracle::Date::new` replaced by "records its arguments, returns an arbitrary value";
+/// their own contracts (day * 86_400_000_000 + time, floored to the second for the Oracle date) are proved in Verus
+pub fn ts_new_probe(date: Date, time: Time) -> Timestamp {
+    unsafe { K_NEW_DAY = date.days() as i64; K_NEW_TOD = time.usecs(); K_NEW_CALLS += 1; }
+    any_timestamp()
+}
+pub fn od_new_probe(date: Date, time: Time) -> crate::OracleDate {
+    unsafe { K_NEW_DAY = date.days() as i64; K_NEW_TOD = time.usecs(); K_NEW_CALLS += 1; }
+    crate::OracleDate::MIN
+}
+
 #[kani::proof]
 #[kani::stub(chrono::Local::now, stub_now)]
+#[kani::stub(crate::timestamp::Timestamp::new, ts_new_probe)]
+#[kani::stub(crate::oracle::Date::new, od_new_probe)]
 fn clock_now_timestamp() {
     use crate::OracleDate;
     let c = set_any_clock(false);
     let day = k_dn(c[0] as i64, c[1] as i64, c[2] as i64);
     let tod = k_hms_us(c[3] as i64, c[4] as i64, c[5] as i64, c[6] as i64);
+    unsafe { K_NEW_CALLS = 0; }
     let ts = Timestamp::now();
-    assert!(ts.is_ok() && ts.unwrap().usecs() == day * K_US_DAY + tod);
+    assert!(ts.is_ok());
+    assert!(unsafe { K_NEW_CALLS } == 1 && unsafe { K_NEW_DAY } == day && unsafe { K_NEW_TOD } == tod);
+    unsafe { K_NEW_CALLS = 0; }
     let od = OracleDate::now();
-    assert!(od.is_ok() && od.unwrap().usecs() == day * K_US_DAY + tod - c[6] as i64);
+    assert!(od.is_ok());
+    // the Oracle-style date is built from the clock's whole second
+    assert!(unsafe { K_NEW_CALLS } == 1 && unsafe { K_NEW_DAY } == day && unsafe { K_NEW_TOD } == tod - c[6] as i64);
 }
 
 /// time of day -> timestamp / Oracle-style date on the current local date
 #[kani::proof]
 #[kani::stub(chrono::Local::now, stub_now)]
+#[kani::stub(crate::timestamp::Timestamp::new, ts_new_probe)]
+#[kani::stub(crate::oracle::Date::new, od_new_probe)]
 fn clock_time_to_timestamp() {
     use crate::OracleDate;
     let c = set_any_clock(false);
     let day = k_dn(c[0] as i64, c[1] as i64, c[2] as i64);
-    let s: i64 = kani::any();
-    let f: i64 = kani::any();
-    kani::assume(s >= 0 && s < 86_400 && f >= 0 && f < 1_000_000);
-    let t = Time::try_from_usecs(s * 1_000_000 + f).unwrap();
+    let t = any_time();
+    unsafe { K_NEW_CALLS = 0; }
     let a = Timestamp::try_from(t);
-    assert!(a.is_ok() && a.unwrap().usecs() == day * K_US_DAY + s * 1_000_000 + f);
+    assert!(a.is_ok());
+    assert!(unsafe { K_NEW_CALLS } == 1 && unsafe { K_NEW_DAY } == day && unsafe { K_NEW_TOD } == t.usecs());
+    unsafe { K_NEW_CALLS = 0; }
     let b = OracleDate::try_from(t);
-    assert!(b.is_ok() && b.unwrap().usecs() == day * K_US_DAY + s * 1_000_000);
+    assert!(b.is_ok());
+    assert!(unsafe { K_NEW_CALLS } == 1 && unsafe { K_NEW_DAY } == day && unsafe { K_NEW_TOD } == t.usecs());
 }
 
 /// a clock outside years 1..=9999 is reported as an error, never as a wrapped value
